@@ -45,7 +45,46 @@ def ra_search(cfg, res):
     return None, None
 
 
+def restart_part(res):
+    """without the shim (the writer's own stores are what lands in the file): a daemon died in the middle of an
+    update - odd generation, the record in the segment a mixture of the last two - or left a complete record;
+    a new daemon starts over the file and publishes a record many of whose fields are zero (as its start-up
+    record is); a fresh client must read back exactly that record, no field of what was there before"""
+    import os, random, shutil
+    from props import _files as F
+    rng = random.Random(res.seed * 7 + 2)
+    root = os.path.join(c.BUILD, "scratch", "restart-%d" % os.getpid())
+    shutil.rmtree(root, ignore_errors=True)
+    os.makedirs(root)
+    lines, want = [], []
+    for k in range(60 if res.tier == "quick" else 2000):
+        old = (rng.randrange(1, 10 ** 5), rng.randrange(1, 10 ** 9), rng.randrange(1, 10 ** 5), rng.randrange(1, 10 ** 9), rng.randrange(1, 10 ** 9), rng.randrange(1, 10 ** 6), rng.choice([1, 2]))
+        gen = rng.choice([3, 7, 101, 65535, 4, 6])
+        new = tuple(0 if rng.random() < 0.5 else v for v in (rng.randrange(1, 10 ** 5), rng.randrange(1, 10 ** 9), rng.randrange(1, 10 ** 5), 0, rng.randrange(1, 10 ** 9), rng.choice([1000, 50000]), rng.randrange(3)))
+        pth = os.path.join(root, "seg%d" % k)
+        with open(pth, "wb") as fh:
+            fh.write(F.header(gen=gen) + F.record(old))
+        lines.append("wrt %s %d %d %d %d %d %d %d" % ((pth,) + new))
+        want.append((gen, old, new))
+    outs = c.run_lines(c.build_harness("debug")[0], lines) + c.run_lines(c.build_harness("release")[0], lines)
+    shutil.rmtree(root, ignore_errors=True)
+    bad = []
+    for (gen, old, new), o in zip(want + want, outs):
+        res.evaluations += 1
+        res.count("gen:restart over a %s record, publication with zero fields" % ("half-written" if gen % 2 else "complete"))
+        res.nontriv(str((gen, old, new)))
+        if o != "W:ok R:%d:%d:%d:%d:%d:%d:%d" % new:
+            bad.append({"schedule": "daemon restart over generation %d, record %s; publication of %s" % (gen, old, new), "impl": o,
+                        "why": ["a fresh client read %s after the restarted daemon published %s over a segment holding %s (generation %d): fields of two records in one snapshot" % (o, new, old, gen)]})
+    res.oblige("a record published by a daemon that started over a half-written or complete segment is read back whole (%d restarts)" % len(outs), not bad)
+    if bad:
+        res.violation({"property": "C02", "kind": "history", "case": bad[0], "others": [b["schedule"][:200] for b in bad[1:4]],
+                       "predicate": "every record a reader obtains is, field for field, one record the daemon published in full",
+                       "how_to_replay": "./check C02"})
+
+
 def run(res, proofs_ok, proofs_why):
+    restart_part(res)
     cfg_box = {}
 
     def extra(res, cfg, binary, rng):
